@@ -167,15 +167,17 @@ structure Lyds (α : Type) where
 
 def Lyds.empty : Lyds α := ⟨.nil, 0⟩
 
-/-- `lyd_insert_node` → `lyds_insert`: no leader → plain link; a leader without tree → the tree is built from the
-    instances present (here: the one instance, the root, black) and the node is inserted -/
+/-- the tree `lyds_insert` works on: the one the leader's metadata points to, or — none yet — the one built from the instances
+    present (`lyds_additionally_create_rb_tree`; here always the single instance `only`: the root, black) -/
+def Lyds.base (t : T α) (only : Option α) : T α :=
+  match t, only with
+  | .nil, some o => .node .black .nil o .nil
+  | t, _ => t
+
+/-- `lyd_insert_node` → `lyds_insert`: no leader → plain link, no tree; else `rb_insert_node` into `Lyds.base` -/
 def Lyds.insert (gt : α → α → Bool) (only : Option α) (x : α) (s : Lyds α) : Lyds α :=
   if s.n = 0 then ⟨.nil, 1⟩
-  else
-    let t0 : T α := match s.tree, only with
-      | .nil, some o => .node .black .nil o .nil
-      | t, _ => t
-    ⟨Rb.insert gt x t0, s.n + 1⟩
+  else ⟨Rb.insert gt x (Lyds.base s.tree only), s.n + 1⟩
 
 /-- `lyd_unlink` → `lyds_unlink(&leader, node)`: nothing if the leader has no metadata or is alone (the metadata and a
     one-node tree stay on the unlinked node and go with it); else the metadata moves to the second instance when the
